@@ -8,7 +8,7 @@ encoding bits, source-shape flags).  Lemmas: OccaProofs/Lemmas/Lex*.lean.
 Clauses of the property:
   (1) tokenizing any byte string terminates without crashing or reading out of bounds
         C12_total_no_trap, C12_getToken_consumes (progress = the termination argument),
-        C12_skip_in_bounds
+        C12_skip_in_bounds, C12_getHeader_in_bounds
   (2) operators are split by longest match
         C12_operator_longest, C12_operator_exact, C12_operator_never_fails
   (3) printed tokens are read back as themselves
@@ -32,7 +32,7 @@ open Occa Occa.Gen Occa.Lex
     current source; the flags are recomputed from the C++ on every run. -/
 theorem C12_source_shape : ∀ p ∈ sourceShape, p.2 = true := by decide
 
-example : sourceShape.length = 18 := by decide
+example : sourceShape.length = 19 := by decide
 
 /-- (1) Tokenizing any byte string returns: no read or pointer step beyond the terminating NUL (`Trap.oob`)
     and no non-termination of the token loop (`Trap.fuel`). -/
@@ -56,6 +56,12 @@ theorem C12_skip_in_bounds (stop : Char → Bool) (r : Str) : ∃ r', skipUntil 
   skipUntil_ok stop r
 
 example : skipUntil (· == 'x') ['a', '\\'] = .ok [] := by decide
+
+/-- (1) `getHeader` (the `#include` path of the same file, repaired together with FL1) stays inside the buffer -/
+theorem C12_getHeader_in_bounds (r : Str) (hn : NoNul r) : ∃ v e r', getHeader r = .ok (v, e, r') ∧ Suffix r' r :=
+  getHeader_ok r hn
+
+example : getHeader ['<', 'a', 'b'] = .ok ([], 1, []) := by decide
 
 /-- (2) `getLongest`: the operator found is a registered spelling that is a prefix of the input and no
     registered spelling that is a prefix of the input is longer. -/
